@@ -469,7 +469,7 @@ pub fn u_kind_triples() -> Universe {
 /// letters, metacharacters, a backslash and a non-ASCII letter, i, j, k in {2,3}. Printing, escaping and grouping of a
 /// repeated unit recurse over the nesting; one- and two-level universes cannot tell a shallow walk from a deep one.
 pub fn u_nested_rep() -> Universe {
-    let ks = [".", "+", "a", "b", "\\", "\u{e9}", "-", "1"];
+    let ks = [".", "+", "a", "b", "\\", "\u{e9}", "-", "1", "\u{1f4a9}"];
     let mut w = vec![];
     for x in ks {
         for y in ks {
@@ -499,7 +499,7 @@ pub fn u_nested_rep() -> Universe {
     }
     w.sort();
     w.dedup();
-    Universe::from_words("U_nest: ((x^i y)^j z)^k and (((x^2 y)^2 z)^2 w)^2 over {. + a b \\ e-acute - 1}, i,j,k in {2,3}", w, 1)
+    Universe::from_words("U_nest: ((x^i y)^j z)^k and (((x^2 y)^2 z)^2 w)^2 over {. + a b \\ e-acute - 1 U+1F4A9}, i,j,k in {2,3}", w, 1)
 }
 
 /// Prefix x suffix words whose trie order differs from their raw-text order once a conversion is applied: prefixes
